@@ -309,6 +309,7 @@ static void execOp(const Group& T, const Op& o) {
         if (o.b == 1) {                      // the platform's realloc answers NULL: the block stays what and whose it was
             g_failNextRealloc = true;
             void* q = cpputest_realloc_location(s.p, (size_t)o.c, file, line);
+            if (g_failNextRealloc && RS.o) { RS.o->reallocFaultUnused.push_back(o.d); fired("realloc_fault_never_asked_for"); }      // no platform realloc was called: nothing failed, an ordinary reallocation
             g_failNextRealloc = false;
             if (q) { s.p = q; s.size = (size_t)o.c; fillPattern(q, s.size, (int)(o.a % N_SLOTS)); }
             break;
